@@ -6,16 +6,7 @@ import server_common as sc
 
 def run(ctx):
     detail = {}
-    proof_ok = True
-    r = ctx.props()
-    if not r["ok"]:
-        proof_ok = False
-        detail["coq"] = r["failed_at"] or r["log"][-1500:]
-    if ctx.thorough() and proof_ok:
-        ok2, log = ctx.coqchk()
-        if not ok2:
-            proof_ok = False
-            detail["coqchk"] = log[-1500:]
+    proof_ok = sc.standard_proof_steps(ctx, ["server"], detail)
 
     res, err = sc.run_harness(ctx, ["sec", "-seed", str(ctx.seed)], timeout=900)
     if res is None:
@@ -38,40 +29,57 @@ def run(ctx):
 
     # oracle: the property on the implementation
     new, seen = 0, set()
+
+    def report(key, why, o):
+        nonlocal new
+        if key in seen:
+            return
+        seen.add(key)
+        if ctx.finding(key, why, {"observation": o, "how": "serverharness sec"}):
+            new += 1
+
     for o in obs:
         enabled = [tuple(x) for x in (o.get("enabled") or [])]
         adv = [tuple(x) for x in (o.get("advertised") or [])]
-        if sorted(adv) != sorted(enabled * max(1, o.get("urls", 1))):
-            key = "advertised-differs-from-enabled"
-            if key not in seen:
-                seen.add(key)
-                if ctx.finding(key, "configuration %s advertises %s but enables %s" % (o["config"], adv, enabled), {"observation": o, "how": "serverharness sec"}):
-                    new += 1
-        if o["opened"] and tuple(o["client"]) not in enabled:
-            key = "opn-not-checked-against-config"
-            if key not in seen:
-                seen.add(key)
-                if ctx.finding(key, "server configured with %s (%s) opened a %s channel%s" % (
-                        o["config"], enabled, o["client_name"], " and served GetEndpoints on it" if o.get("served") else ""),
-                        {"observation": o, "how": "serverharness sec"}):
-                    new += 1
-        if not o["opened"] and tuple(o["client"]) in enabled and (o["has_key"] or o["client"][0] == 0):
-            key = "enabled-pair-refused/" + o["client_name"]
-            if key not in seen:
-                seen.add(key)
-                if ctx.finding(key, "an enabled pair was refused: %s on %s: %s" % (o["client_name"], o["config"], o.get("err")), {"observation": o}):
-                    new += 1
+        pair = tuple(o["client"])
+        effective = enabled or [(0, 1)]          # a server without EnableSecurity serves None/None
+        if not o.get("raw") and sorted(adv) != sorted(enabled * max(1, o.get("urls", 1))):
+            report("advertised-differs-from-enabled", "configuration %s advertises %s but enables %s" % (o["config"], adv, enabled), o)
+        if o.get("opened") and pair not in effective and pair != (0, 1):
+            report("opn-not-checked-against-config", "server configured with %s (%s) opened a %s channel" % (o["config"], enabled, o["client_name"]), o)
+        if o.get("session") and pair not in effective:
+            report("session-on-channel-not-enabled", "server configured with %s (%s) created a session on a %s channel" % (o["config"], enabled, o["client_name"]), o)
+        if o.get("opened") and o.get("session") is False and pair in effective:
+            report("session-refused-on-enabled-channel", "CreateSession refused (0x%08x) on an enabled %s channel of %s" % (o.get("session_status", 0), o["client_name"], o["config"]), o)
+        if o.get("opened") and o.get("served") is False:
+            report("discovery-refused", "GetEndpoints refused on an opened %s channel of %s" % (o["client_name"], o["config"]), o)
+        if not o.get("opened") and pair in effective and (o["has_key"] or pair[0] == 0) and pair[0] != 99:
+            report("enabled-pair-refused/" + o["client_name"], "an enabled pair was refused: %s on %s: %s" % (o["client_name"], o["config"], o.get("err")), o)
+        if not o.get("opened") and o.get("status") and o["status"] not in (0x80540000, 0x80550000) and o.get("raw"):
+            report("refusal-status", "refused with status 0x%08x" % o["status"], o)
 
     lines = []
     for o in obs:
         en = "[%s]" % "; ".join("(%d, %d)" % tuple(x) for x in (o.get("enabled") or []))
         adv = "[%s]" % "; ".join("(0, (%d, %d))" % tuple(x) for x in (o.get("advertised") or []))
-        lines.append("(%s, %s, (%d, %d), %s, %s, %d%%nat)" % (en, sc.b(o["has_key"]), o["client"][0], o["client"][1], sc.b(o["opened"]), adv, o.get("urls", 1)))
+        sess = "None" if o.get("session") is None else "(Some %s)" % sc.b(o["session"])
+        lines.append("(%s, %s, (%d, %d), (%s, %d, %s), %s, %d%%nat)" % (en, sc.b(o["has_key"]), o["client"][0], o["client"][1],
+                                                                     sc.b(bool(o.get("opened"))), (o.get("status") if o.get("status") in (0x80540000, 0x80550000) else 0), sess, adv, o.get("urls", 1)))
     okc, idx, clog = ctx.eval_cases(
-        "From Coq Require Import NArith Bool List.\nFrom Opcua Require Import Model.ServerSec.\nImport ListNotations. Open Scope N_scope.",
-        "list secpair * bool * (N * N) * bool * list (N * secpair) * nat", lines,
-        """  let '(en, key, (p, m), opened, adv, nurls) := c in
+        "From Coq Require Import NArith Bool List.\nFrom Opcua Require Import Model.ServerSpace Model.ServerBrowse Model.Server Model.ServerSec.\nImport ListNotations. Open Scope N_scope.",
+        "list secpair * bool * (N * N) * (bool * N * option bool) * list (N * secpair) * nat", lines,
+        """  let '(en, key, (p, m), (opened, status, sess), adv, nurls) := c in
   Bool.eqb (opn_accept en key p m) opened &&
+  (if status =? 0 then true else match accept_security en p m with Some st => st =? status | None => false end) &&
+  (match sess with
+   | None => true
+   | Some served =>
+       match snd (handle_on en (fun _ => (p, m)) 1 (init (Space 1 []) 1) (EReq 0 0 (RCreateSession 7 true))) with
+       | OCreateSession _ => served
+       | OFault st => negb served && (st =? StBadSecurityPolicyRejected)
+       | _ => false
+       end
+   end) &&
   Nat.eqb (length adv) (length (advertised en (repeat 0 nurls))) &&
   forallb (fun a => existsb (fun b => (fst (snd a) =? fst (snd b)) && (snd (snd a) =? snd (snd b))) (advertised en (repeat 0 nurls))) adv""")
     corr_ok = okc and not idx
@@ -83,9 +91,12 @@ def run(ctx):
     ctx.coverage.update({
         "evaluations": len(obs), "distinct_nontrivial": len({(o["config"], o["client_name"], o["opened"]) for o in obs}),
         "rule": "server configurations (None only with and without key, one secured pair only, mixed, nothing enabled) x client policy/mode "
-                "(None, Basic256Sha256 Sign and SignAndEncrypt, Basic128Rsa15, Aes128_Sha256_RsaOaep, Aes256_Sha256_RsaPss) over real channels; "
-                "distinct = distinct (configuration, client pair, opened)",
-        "opened": sum(1 for o in obs if o["opened"]), "opened_not_enabled": sum(1 for o in obs if o["opened"] and tuple(o["client"]) not in [tuple(x) for x in (o.get("enabled") or [])]),
+                "(None, Basic256Sha256 Sign and SignAndEncrypt, Basic128Rsa15, Aes128_Sha256_RsaOaep, Aes256_Sha256_RsaPss) over real channels, "
+                "each followed by GetEndpoints and CreateSession, plus raw OPN frames with pairs the client library refuses to send "
+                "(None with Sign / SignAndEncrypt / Invalid / 4, an unknown policy URI); distinct = distinct (configuration, client pair, opened)",
+        "sessions_created": sum(1 for o in obs if o.get("session")), "discovery_only_channels": sum(1 for o in obs if o.get("opened") and o.get("session") is False),
+        "raw_frames": sum(1 for o in obs if o.get("raw")),
+        "opened": sum(1 for o in obs if o.get("opened")), "refused_with_status": sum(1 for o in obs if not o.get("opened") and o.get("status")),
         "samples": obs[12:15],
         "traces_validated_against_impl": len(obs), "model_impl_mismatches": len(idx) if okc else -1,
     })
